@@ -6,6 +6,7 @@ open Driver
 structure St where
   pairs : Nat := 0          -- finished recordings so far = 2 * pairs
   sameMs : Nat := 0
+  fulls : Nat := 0
 
 def init (_ : List String) : St := {}
 
@@ -16,6 +17,11 @@ def step (st : St) (bl : Block) : St × List String :=
     let same := (bl.outs.filter fun o => o.head? == some "samems").map joinSp
     ({ st with pairs := st.pairs + 1 },
      same ++ [s!"pair distinct=true stop=ok,ok decode=ok,ok frames={nat n1},{nat n2}", s!"dir finished={2 * (st.pairs + 1)} other=0"])
+  | ["full", k] =>
+    -- whether a small file system can be mounted is the environment's business (echoed); if it can, the continuous
+    -- recorder deletes exactly the k oldest of its own recordings, keeps the rest and the main directory, and starts
+    if bl.outs.contains ["full", "skipped"] then (st, ["full skipped"])
+    else (st, [s!"full k={nat k} ret=ok oldleft=2 mainkept=true"])
   | _ => (st, ["bad-op"])
 
 def monStep (st : St) (bl : Block) : St × List String :=
@@ -36,9 +42,20 @@ def monStep (st : St) (bl : Block) : St × List String :=
           else "recording-pair-differs"
         | none => "recording-pair-not-completed"
       (st', [s!"prop=C10 reason={r}"])
+  | ["full", k] =>
+    if bl.outs.contains ["full", "skipped"] then (st, []) else
+    let want := fields s!"full k={nat k} ret=ok oldleft=2 mainkept=true"
+    match bl.outs.find? (fun o => o.head? == some "full") with
+    | some o =>
+      if o == want then ({ st with fulls := st.fulls + 1 }, []) else
+      let r := if !(o.contains "mainkept=true") then "prop=C17 reason=continuous-recorder-deleted-a-recording-of-the-main-directory"
+        else if !(o.contains "ret=ok") then "prop=C17 reason=continuous-recording-not-started-although-old-recordings-could-be-deleted"
+        else "prop=C17 reason=continuous-recorder-deleted-the-wrong-number-of-old-recordings"
+      (st, [r, "prop=C10 reason=finished-recordings-deleted-or-kept-wrongly-when-the-disk-is-nearly-full"])
+    | none => (st, ["prop=C17 reason=continuous-recorder-start-on-a-nearly-full-disk-did-not-complete"])
   | _ => (st, [])
 
 def monFinish (st : St) : List String :=
-  [s!"STAT stream=names pairs={st.pairs} samemillisecond={st.sameMs} nontrivial={if st.sameMs ≥ 1 then 1 else 0}"]
+  [s!"STAT stream=names pairs={st.pairs} samemillisecond={st.sameMs} nearlyfulldisk={st.fulls} nontrivial={if st.sameMs ≥ 1 then 1 else 0}"]
 
 end Driver.NamesStream
